@@ -572,6 +572,15 @@ func (ch *ch) handleRegisteredEventLocked(
 func registerDispute(ctx context.Context, r *registry, registerer channel.Registerer, parentCh *ch) error {
 	parentTx, subStates := retrieveLatestSubStates(r, parentCh)
 
+	// A sub-channel that is locked in the parent but has not been registered
+	// with the watcher yet is not known here. The tree can be registered only
+	// together with a state of each of its sub-channels.
+	for i := range subStates {
+		if subStates[i].State == nil || subStates[i].Params == nil {
+			return errors.Errorf("no state of sub-channel %x", parentTx.Locked[i].ID)
+		}
+	}
+
 	err := registerer.Register(ctx, makeAdjudicatorReq(parentCh.params, parentTx), subStates)
 	if err != nil {
 		return err
